@@ -8,7 +8,9 @@ Line protocol for C07.
 
 `C07 F <reset> <v1> <t1> <v2> <t2>`                      → `1`/`0` (`fresher`)
 `C07 R <reset> <observe 0|1> <event>*`                    the runner of `Request._run`
-   events: `M@t:code:obs|-:body:last`  message      `X@t:k`  exception
+   events: `M@t:code:obs|-:body:last[:cancels]`  message (`cancels` = 1: the application calls
+           `observation.cancel()` from inside the callback that hands it this message)
+           `X@t:k`  exception
            `OC@t`  observation.cancel()             `RC@t`  response.cancel()
    → one group per event, separated by blanks: `<deliveries,comma|.>/<E|->` where `E` says the
      runner has ended (the pipe has no interest left).  Deliveries:
@@ -64,6 +66,10 @@ def parseEvent (s : String) : Option TEvent :=
     match kind, rest.splitOn ":" with
     | "M", [t, code, obs, body, last] => do
       let m : Msg := { code := ← code.toNat?, obs := ← parseOptNat obs, body := ← body.toNat? }
+      pure { time := ← t.toNat?, ev := .message m (← parseBool last) }
+    | "M", [t, code, obs, body, last, c] => do
+      let m : Msg := { code := ← code.toNat?, obs := ← parseOptNat obs, body := ← body.toNat?,
+                       cancels := ← parseBool c }
       pure { time := ← t.toNat?, ev := .message m (← parseBool last) }
     | "X", [t, k] => do pure { time := ← t.toNat?, ev := .exception (← k.toNat?) }
     | "OC", [t] => do pure { time := ← t.toNat?, ev := .obsCancel }
